@@ -17,9 +17,9 @@ PID = "C13"
 #            #closed hosts, #open hosts, #inserted trees per nonterminal
 TIERS = {
     "quick": dict(
-        plan={"ASSGN2": (8, 30, 7, 19, 3, 7, 6, 9, 4), "XMLISH": (7, 30, 6, 20, 3, 9, 6, 9, 4), "CSVISH": (8, 22, 7, 16, 3, 6, 6, 9, 4),
-              "NULLABLE": (8, 16, 7, 13, 3, 6, 4, 7, 3), "LEFTREC": (7, 22, 6, 16, 3, 6, 5, 8, 3), "AMBIG": (6, 15, 5, 13, 3, 5, 4, 6, 3),
-              "RIGHTREC": (8, 20, 7, 16, 3, 6, 4, 6, 3), "NUM": (7, 18, 6, 14, 3, 6, 3, 4, 2), "MULTICHAR": (3, 8, 3, 8, 2, 3, 3, 4, 2)},
+        plan={"ASSGN2": (8, 30, 7, 19, 3, 7, 5, 7, 3), "XMLISH": (7, 30, 6, 20, 3, 9, 5, 7, 3), "CSVISH": (8, 22, 7, 16, 3, 6, 5, 7, 3),
+              "NULLABLE": (8, 16, 7, 13, 3, 6, 4, 6, 3), "LEFTREC": (7, 22, 6, 16, 3, 6, 4, 6, 3), "AMBIG": (6, 15, 5, 13, 3, 5, 3, 5, 3),
+              "RIGHTREC": (8, 20, 7, 16, 3, 6, 3, 5, 3), "MULTICHAR": (3, 8, 3, 8, 2, 3, 2, 3, 2)},
         cap=20, task_timeout=300),
     "thorough": dict(
         plan={"ASSGN2": (9, 34, 8, 22, 4, 9, 26, 40, 6), "XMLISH": (8, 34, 7, 24, 3, 9, 26, 40, 6), "CSVISH": (8, 24, 7, 18, 3, 7, 26, 40, 6),
